@@ -233,6 +233,15 @@ func (r *appRun) runBlock(pb plannedBlock, tracked []sdk.AccAddress, rep *Report
 			pre[a.String()] = app.BankKeeper.GetAllBalances(ctx, a)
 		}
 		supPre := app.BankKeeper.GetSupply(ctx, BondDenom).Amount
+		// the replica that also serves clients (VERIF_QUERIES=1) first simulates the transaction, as a wallet asking for a gas
+		// estimate makes a node do: the simulation runs on a branch of the state that is dropped and must leave no trace
+		if os.Getenv("VERIF_QUERIES") == "1" {
+			func() {
+				defer func() { recover() }()                                         //nolint:errcheck
+				app.Simulate(bz)                                                     //nolint:errcheck
+				app.CheckTx(abci.RequestCheckTx{Tx: bz, Type: abci.CheckTxType_New}) // mempool admission runs the ante handler on the check state
+			}()
+		}
 		var res abci.ResponseDeliverTx
 		func() {
 			defer func() {
@@ -663,6 +672,13 @@ func runAppCase(seed uint64, idx int, rep *Report, profile string, traceDir stri
 					rep.Eval("C12.reexport_succeeds", false, idx, bIdx, err.Error())
 					return
 				}
+				// the SDK's account and bank state: an import must not create accounts or move coins either
+				var ga1, ga2 map[string]json.RawMessage
+				json.Unmarshal(exp.AppState, &ga1)
+				json.Unmarshal(exp2.AppState, &ga2)
+				for _, m := range []string{authtypes.ModuleName, banktypes.ModuleName} {
+					rep.Eval("C12.reexport_equals_export."+m, string(ga1[m]) == string(ga2[m]), idx, bIdx, fmt.Sprintf("%.500s\n vs \n%.500s", firstDiff(string(ga1[m]), string(ga2[m])), ""))
+				}
 				g1, g2 := customGenesis(exp.AppState), customGenesis(exp2.AppState)
 				for _, m := range []string{mintertypes.ModuleName, distrtypes.ModuleName, vesttypes.ModuleName, sigtypes.ModuleName} {
 					rep.Eval("C12.reexport_equals_export."+m, g1[m] == g2[m], idx, bIdx, fmt.Sprintf("%.400s\n vs \n%.400s", g1[m], g2[m]))
@@ -703,6 +719,30 @@ func runAppCase(seed uint64, idx int, rep *Report, profile string, traceDir stri
 		flush(idx)
 	}
 	return cases
+}
+
+// firstDiff shows the neighbourhood of the first difference of two strings.
+func firstDiff(a, b string) string {
+	n := len(a)
+	if len(b) < n {
+		n = len(b)
+	}
+	i := 0
+	for i < n && a[i] == b[i] {
+		i++
+	}
+	lo := i - 120
+	if lo < 0 {
+		lo = 0
+	}
+	ha, hb := i+200, i+200
+	if ha > len(a) {
+		ha = len(a)
+	}
+	if hb > len(b) {
+		hb = len(b)
+	}
+	return fmt.Sprintf("at byte %d: ...%s  <>  ...%s", i, a[lo:ha], b[lo:hb])
 }
 
 func sameParams(a, b mintertypes.Params) bool {
